@@ -24,5 +24,26 @@ if begin in text:
     text = re.sub(re.escape(begin) + ".*?" + re.escape(end), begin + "\n" + table + "\n" + end, text, flags=re.S)
 else:
     text = text.replace("SEED_TABLE", begin + "\n" + table + "\n" + end)
+# theorem inventory per property, from the evidence files of the last clean run
+inv = ["| property | technique (deciding method) | theorems audited on the last run (own modules) | open findings |", "|---|---|---|---|"]
+claims = json.load(open(os.path.join(VERIF, "tools", "claims.json")))
+known = json.load(open(os.path.join(VERIF, "known_findings.json")))["findings"]
+for i in range(1, 21):
+    pid = f"C{i:02d}"
+    try:
+        ev = json.load(open(os.path.join(VERIF, "evidence", pid + ".json")))
+        ths = [t.split(".", 2)[-1] for t in ev["coverage"]["theorems"] if f".{pid}." in t]
+    except FileNotFoundError:
+        ths = []
+    main = [t for t in ths if t.startswith(pid + "_") or t.startswith("counter_")] or ths
+    shown = ", ".join(f"`{t}`" for t in main[:14]) + (f" … (+{len(ths) - min(len(main), 14)} supporting)" if len(ths) > min(len(main), 14) else "")
+    opens = [f["id"].split("-", 1)[1] for f in known if f.get("status") == "open" and pid in f.get("properties", [])]
+    inv.append(f"| {pid} | {claims[pid]['technique']} | {shown} | {', '.join(opens) or '—'} |")
+b2, e2 = "<!-- THEOREM_TABLE_BEGIN -->", "<!-- THEOREM_TABLE_END -->"
+block = b2 + "\n" + "\n".join(inv) + "\n" + e2
+if b2 in text:
+    text = re.sub(re.escape(b2) + ".*?" + re.escape(e2), lambda _m: block, text, flags=re.S)
+else:
+    text = text.replace("### 15.6 Trusted base, as built", "### 15.7 Theorem inventory (generated from the last clean run's evidence)\n\n" + block + "\n\n### 15.6 Trusted base, as built")
 open(path, "w", encoding="utf8").write(text)
-print(len(rows) - 2, "rows")
+print(len(rows) - 2, "rows;", len(inv) - 2, "properties")
